@@ -68,13 +68,15 @@ class Twin:
                 return types.ValidResult.PASS
             coro = self.app.express(name, v, lifetime=3_600_000, can_be_prefix=cbp, nonce=7)
         else:
-            coro = self.app.express_interest(name, lifetime=3_600_000, can_be_prefix=cbp, nonce=7)
+            coro = self.app.express_interest(name, lifetime=3_600_000, can_be_prefix=cbp, nonce=7, need_raw_packet=True)
 
         async def waiter():
             try:
                 r = await coro
                 content = r[1] if self.fe == 'v2' else r[2]
-                self.log.append(('completed', key, 'data', [bytes(c) for c in r[0]], None if content is None else bytes(content)))
+                raw = r[2].get('raw_packet') if self.fe == 'v2' else (r[3] if len(r) > 3 else None)
+                self.log.append(('completed', key, 'data', [bytes(c) for c in r[0]], None if content is None else bytes(content),
+                                 None if raw is None else bytes(raw)))
             except types.InterestNack as e:
                 self.log.append(('completed', key, 'nack', e.reason))
             except asyncio.CancelledError:
@@ -84,7 +86,8 @@ class Twin:
         self.pend[key] = asyncio.ensure_future(waiter())
 
     def ensure_pending(self):
-        for key, name, cbp in (('P1', [C(b'p'), C(b'one')], False), ('P2', [C(b'p'), C(b'two')], True)):
+        for key, name, cbp in (('P1', [C(b'p'), C(b'one')], False), ('P2', [C(b'p'), C(b'two')], True),
+                               ('P3', [C(b'p'), C(b'three'), rc.comp(1, D3_DIGEST)], False)):
             if key not in self.pend or self.pend[key].done():
                 self.express(key, name, cbp)
 
@@ -99,9 +102,13 @@ class Twin:
         return self.log[snap[0]:], [b for t, b in self.face.sent[snap[1]:]]
 
 
+D3 = bytes(make_data([C(b'p'), C(b'three')], MetaInfo(), b'digest-addressed', DigestSha256Signer()))
+D3_DIGEST = __import__('hashlib').sha256(D3).digest()
+
+
 def network_packets(ctx, rng):
     sd = DigestSha256Signer()
-    out = []
+    out = [('data', D3), ('data', bytes(make_data([C(b'p'), C(b'three')], MetaInfo(), b'same name, other bytes', sd)))]
     for nm in ([C(b'p'), C(b'one')], [C(b'p'), C(b'two')], [C(b'p'), C(b'two'), C(b'x')], [C(b'p')], [C(b'h')],
                [C(b'h'), C(b'q')], [C(b'zz')]):
         out.append(('data', bytes(make_data(nm, MetaInfo(), b'payload', sd))))
